@@ -185,6 +185,9 @@ pub struct Scenario<'v> {
     pub second_fabric: bool,
     pub foreign2: bool,
     pub wrong_ipk2: bool,
+    /// the device's responders (the application side) do not run for the first `stall_ms` of the run: what arrives
+    /// meanwhile is only seen by the transport (accept time-outs)
+    pub stall_ms: u64,
 }
 
 /// Runs one scenario; every observable goes to `tr`.  Returns how the run ended.
@@ -343,7 +346,10 @@ pub fn run_scenario(sc: &Scenario<'_>, tr: &mut Trace) -> End {
         core::future::pending::<Result<(), Error>>().await
     };
     let devside = async {
-        select(select4(dev.run(&crypto, Tx(net.clone(), 0), Rx(net.clone(), 0), NoNetwork), responder.run::<4>(), busy_responder.run::<1>(), dm.run()).coalesce(), expirer).coalesce().await
+        let stall = sc.stall_ms;
+        let r1 = async { if stall > 0 { embassy_time::Timer::after_millis(stall).await; } responder.run::<4>().await };
+        let r2 = async { if stall > 0 { embassy_time::Timer::after_millis(stall).await; } busy_responder.run::<1>().await };
+        select(select4(dev.run(&crypto, Tx(net.clone(), 0), Rx(net.clone(), 0), NoNetwork), r1, r2, dm.run()).coalesce(), expirer).coalesce().await
     };
     let i1 = async { select(inis[0].run(&crypto, Tx(net.clone(), 1), Rx(net.clone(), 1), NoNetwork), initiator(0)).await };
     let i2 = async { select(inis[1].run(&crypto, Tx(net.clone(), 2), Rx(net.clone(), 2), NoNetwork), initiator(1)).await };
@@ -664,25 +670,36 @@ pub fn run_scenario(sc: &Scenario<'_>, tr: &mut Trace) -> End {
             "Garbage" => {
                 // an unsecured datagram from initiator i's address: a first handshake message with a rubbish payload,
                 // a status report, or rubbish bytes
+                // "rel": false leaves the reliability flag out (the device owes no acknowledgement); kind "late_ack": a
+                // stand-alone acknowledgement from the sender of the previous garbage message, for that exchange
                 let i = op["i"].as_u64().unwrap() as usize;
                 let kind = op["kind"].as_str().unwrap_or("pbkdf");
-                garbage_ctr += 1;
+                let late_ack = kind == "late_ack";
+                if !late_ack {
+                    garbage_ctr += 1;
+                }
                 let data = if kind == "random" {
                     (0..40u8).map(|k| k.wrapping_mul(37).wrapping_add(garbage_ctr as u8)).collect()
                 } else {
                     let mut hdr = rs_matter::transport::packet::PacketHdr::new();
                     hdr.plain.sess_id = 0;
-                    hdr.plain.ctr = garbage_ctr;
+                    hdr.plain.ctr = if late_ack { garbage_ctr + 100_000 } else { garbage_ctr };
                     hdr.plain.set_src_nodeid(Some(0x7000 + garbage_ctr as u64));
                     hdr.proto.exch_id = garbage_ctr as u16;
                     hdr.proto.proto_id = 0;
-                    hdr.proto.proto_opcode = match kind { "pbkdf" => 0x20, "sigma1" => 0x30, "pake1" => 0x22, "sigma3" => 0x32, _ => 0x40 };
+                    hdr.proto.proto_opcode = match kind { "pbkdf" => 0x20, "sigma1" => 0x30, "pake1" => 0x22, "sigma3" => 0x32, "late_ack" => 0x10, _ => 0x40 };
                     hdr.proto.set_initiator();
-                    hdr.proto.set_reliable();
+                    if late_ack {
+                        hdr.proto.set_ack(Some(1));
+                    } else if op["rel"].as_bool().unwrap_or(true) {
+                        hdr.proto.set_reliable();
+                    }
                     let mut buf = vec![0u8; 256];
                     let mut wb = rs_matter::utils::storage::WriteBuf::new(&mut buf);
                     wb.reserve(rs_matter::transport::packet::PacketHdr::HDR_RESERVE).unwrap();
-                    wb.append(&[0x15, 0x30, 0x01, 0x03, 1, 2, 3, 0x25, 0x02, 0x11, 0x22, 0x18, 0xff]).unwrap();
+                    if !late_ack {
+                        wb.append(&[0x15, 0x30, 0x01, 0x03, 1, 2, 3, 0x25, 0x02, 0x11, 0x22, 0x18, 0xff]).unwrap();
+                    }
                     hdr.encode(test_only_crypto(), None, 0, &mut wb).unwrap();
                     wb.as_slice().to_vec()
                 };
